@@ -16,7 +16,15 @@ if [ $ok = 1 ]; then
   if go test -vet=off -count=1 ./... > /tmp/seedconf-$id.suite 2>&1; then suite="pass"; else suite="FAIL"; ok=0; grep -v "^ok\|no test files" /tmp/seedconf-$id.suite | head -20 >> $log; fi
 fi
 with="not run"; without="not run"
-if [ $ok = 1 ]; then
+if [ $ok = 1 ] && [ -f $src/demo.sh ]; then
+  # shell demo: lives at <worktree>/out/x/demo.sh and builds fq from the worktree root; exit 1 = violated
+  mkdir -p out/x; sed "s|^ROOT=/tmp/seed-[0-9]*|ROOT=$wt|" $src/demo.sh > out/x/demo.sh
+  sh out/x/demo.sh > /tmp/seedconf-$id.with 2>&1; rc=$?
+  if [ $rc = 1 ]; then with="fail"; else with="rc=$rc(!)"; ok=0; fi
+  git apply -R $src/patch.diff
+  sh out/x/demo.sh > /tmp/seedconf-$id.without 2>&1; rc=$?
+  if [ $rc = 0 ]; then without="pass"; else without="rc=$rc(!)"; ok=0; tail -20 /tmp/seedconf-$id.without >> $log; fi
+elif [ $ok = 1 ]; then
   cp $src/demo_test.go $pkg/zz_seed_demo_test.go
   if go test -vet=off -count=1 -run "$run" ./$pkg > /tmp/seedconf-$id.with 2>&1; then with="pass(!)"; ok=0; else with="fail"; fi
   git apply -R $src/patch.diff
@@ -26,7 +34,8 @@ echo "seed $id: build+suite=$suite demo-with-change=$with demo-without=$without 
 if [ $ok = 1 ]; then
   mkdir -p /verif/seeded/$id
   cp $src/patch.diff /verif/seeded/$id/patch.diff
-  cp $src/demo_test.go /verif/seeded/$id/demo_test.go
+  [ -f $src/demo_test.go ] && cp $src/demo_test.go /verif/seeded/$id/demo_test.go
+  [ -f $src/demo.sh ] && cp $src/demo.sh /verif/seeded/$id/demo.sh
   [ -f $src/notes.txt ] && cp $src/notes.txt /verif/seeded/$id/notes.txt
   python3 - <<PY
 import json
